@@ -385,6 +385,38 @@ let run_prop (prop : string) (path : string) =
     let before_get k = (try Hashtbl.find prev_changed k with Not_found -> Hashtbl.find impl k) in
     let show (s : Pool.pstate) = Printf.sprintf "%s/%s/%s" (zs s.Pool.p_rx) (zs s.Pool.p_ry) (zs s.Pool.p_ps) in
     let pools = Hashtbl.fold (fun k _ acc -> match S.split_on_char ':' k with ["pool"; a; pl] -> (a, pl) :: acc | _ -> acc) impl [] in
+    (* MsgCreateRangedPool executed: of the offered DepositCoins (x quote, y base) amm.CreateRangedPool accepted (ax, ay);
+       neither what left the creator's wallet nor what arrived in the new pool's reserve exceeds the offer, per denom
+       (the pool creation fee, when it is paid in a pair denom, is not part of the deposit) *)
+    (match !cur_parsed with
+     | Some (OCreateRanged (oa, creator, opair, x, y, _, ax, ay, _)) when !cur_res = "ok" ->
+       let a = zs oa in
+       bump "eval:C06_create_keeper";
+       if not (Pool.holds_C06_create x y ax ay) then
+         pf ~pred:"holds_C06_create_amm" ~kf:"none"
+           ~detail:(Printf.sprintf "app=%s_pair=%s_offered=%s/%s_accepted=%s/%s" a (zs opair) (zs x) (zs y) (zs ax) (zs ay));
+       (match (try tokens (Hashtbl.find impl (Printf.sprintf "pair:%s:%s" a (zs opair))) with Not_found -> []) with
+        | base :: quote :: _ ->
+          let before k = (try z (before_get k) with Not_found -> z0) and after k = impl_z k in
+          let fee d = (match get_params !model oa with
+              | Some p when zs p.pr_fee_denom = d -> p.pr_pool_fee
+              | _ -> z0) in
+          let spent d = let k = Printf.sprintf "bal:u.%s:%s" (zs creator) d in zsub (zsub (before k) (after k)) (fee d) in
+          let sq = spent quote and sb = spent base in
+          if not (Pool.holds_C06_create x y sq sb) then
+            pf ~pred:"holds_C06_create_wallet" ~kf:"none"
+              ~detail:(Printf.sprintf "app=%s_pair=%s_creator=%s_offered=%s/%s_left_the_wallet=%s/%s" a (zs opair) (zs creator) (zs x) (zs y) (zs sq) (zs sb));
+          (* the pool created by this step: its reserve account was empty before *)
+          L.iter (fun (pa, pl) ->
+              let pk = Printf.sprintf "pool:%s:%s" pa pl in
+              if pa = a && Hashtbl.mem changed pk && not (Hashtbl.mem prev_changed pk) then begin
+                let rq = after (Printf.sprintf "bal:res.%s.%s:%s" a pl quote) and rb = after (Printf.sprintf "bal:res.%s.%s:%s" a pl base) in
+                if not (Pool.holds_C06_create x y rq rb) then
+                  pf ~pred:"holds_C06_create_reserve" ~kf:"none"
+                    ~detail:(Printf.sprintf "pool=%s:%s_offered=%s/%s_reserve_received=%s/%s" a pl (zs x) (zs y) (zs rq) (zs rb))
+              end) pools
+        | _ -> ())
+     | _ -> ());
     L.iter (fun (a, pl) ->
         let created = Hashtbl.mem changed (Printf.sprintf "pool:%s:%s" a pl) && not (Hashtbl.mem prev_changed (Printf.sprintf "pool:%s:%s" a pl)) in
         if not created then
